@@ -1,7 +1,170 @@
 import Driver.Util
-open Lean
+import Heph.Model.Context
+/-! op `ctx.run`: a whole operation sequence (mutators and queries interleaved) is run through
+the model of `context.py`; the answer is the list of the query results in order.
+
+request `{"op":"ctx.run","ops":[item,…]}` with items
+```
+["add", kind5, ns, name, val]        ["remove", kind5, ns, name]      ["remove_namespace", ns]
+["get", kind6, ns, only_current, glob, none]       -- get_types/funcs/lambdas/vars/classes/declarations
+["find_namespaces", ns, none]        ["namespaces_decls", ns, name, kind6, glob]
+["get_decl", ns, name]  ["get_lambda", ns, name]  ["get_decl_type", ns, name]
+["declarations_in", ns] ["get_namespace", val]    ["get_parent", ns]  ["get_parent_class", ns]
+["lookup", ns, name, limit|null]     -- module function get_decl
+["dump"]                             -- the whole state
+```
+`val` = `null` | `["n", id, isClass]` | `["t", key]`.  Dictionaries are answered as ordered
+lists of `[name, value]` pairs (order is part of the property), sets sorted by their JSON text. -/
+open Lean Heph.Context
 namespace Driver.Ctx
 
-def handle : Handler := fun _ _ => none
+def parseNs (j : Json) : Except String Ns := do
+  let a ← j.getArr?
+  a.toList.mapM fun x => x.getStr?
+
+def parseVal (j : Json) : Except String Val :=
+  match j with
+  | .null => pure .none
+  | .arr a =>
+    if a.size == 3 then do
+      let t ← a[0]!.getStr?
+      if t != "n" then throw "bad node value"
+      pure (.node (← a[1]!.getNat?) (← a[2]!.getBool?))
+    else if a.size == 2 then do
+      let t ← a[0]!.getStr?
+      if t != "t" then throw "bad tparam value"
+      pure (.tparam (← a[1]!.getStr?))
+    else throw "bad value"
+  | _ => throw "bad value"
+
+def parseKind (s : String) : Except String Kind :=
+  match s with
+  | "types" => pure .types | "funcs" => pure .funcs | "lambdas" => pure .lambdas
+  | "vars" => pure .vars | "classes" => pure .classes | "decls" => pure .decls
+  | _ => throw s!"bad kind {s}"
+
+def parseEKind (s : String) : Except String EKind :=
+  match s with
+  | "types" => pure .types | "funcs" => pure .funcs | "lambdas" => pure .lambdas
+  | "vars" => pure .vars | "classes" => pure .classes
+  | _ => throw s!"bad entity kind {s}"
+
+def ofVal : Val → Json
+  | .none => Json.null
+  | .node i b => Json.arr #[Json.str "n", Json.num (JsonNumber.fromNat i), Json.bool b]
+  | .tparam k => Json.arr #[Json.str "t", Json.str k]
+
+def ofNs (ns : Ns) : Json := ofStrList ns
+
+def ofDict (d : Dict) : Json := Json.arr (d.toArray.map fun e => Json.arr #[Json.str e.1, ofVal e.2])
+
+def sortJson (l : List Json) : Json :=
+  let a := (l.toArray.map fun j => (j.compress, j)).qsort (fun x y => x.1 < y.1)
+  Json.arr (a.map (·.2))
+
+def ofRes {α : Type} (f : α → Json) : Res α → Json
+  | .ok a => f a
+  | .assertionError => Json.str "AssertionError"
+  | .indexError => Json.str "IndexError"
+  | .fuel => Json.str "fuel"
+
+def ofTag : TypeTag → Json
+  | .noneType => Json.str "NoneType"
+  | .classDeclaration => Json.str "ClassDeclaration"
+  | .otherNode => Json.str "Node"
+  | .typeParameter => Json.str "TypeParameter"
+
+def ofEntities (e : Entities) : Json :=
+  Json.arr #[ofDict e.types, ofDict e.funcs, ofDict e.lambdas, ofDict e.vars, ofDict e.classes, ofDict e.decls]
+
+def dump (c : Ctx) : Json :=
+  Json.arr #[
+    Json.arr (c.context.toArray.map fun e => Json.arr #[ofNs e.1, ofEntities e.2]),
+    sortJson (c.namespaces.map fun e => Json.arr #[ofVal e.1, ofNs e.2])]
+
+/-- one item: a new state, or a query answer -/
+def item (c : Ctx) (j : Json) : Except String (Ctx × Option Json) := do
+  let a ← j.getArr?
+  if a.size == 0 then throw "empty item"
+  let tag ← a[0]!.getStr?
+  let need (n : Nat) : Except String Unit :=
+    if a.size == n then pure () else throw s!"{tag}: expected {n} fields"
+  match tag with
+  | "add" => do
+      need 5
+      pure (addK c (← parseEKind (← a[1]!.getStr?)) (← parseNs a[2]!) (← a[3]!.getStr?) (← parseVal a[4]!), none)
+  | "remove" => do
+      need 4
+      pure (removeK c (← parseEKind (← a[1]!.getStr?)) (← parseNs a[2]!) (← a[3]!.getStr?), none)
+  | "remove_namespace" => do
+      need 2
+      pure (removeNamespace c (← parseNs a[1]!), none)
+  | "get" => do
+      need 6
+      let r := getDeclarations c (← parseNs a[2]!) (← parseKind (← a[1]!.getStr?))
+        (← a[3]!.getBool?) (← a[4]!.getBool?) (← a[5]!.getBool?)
+      pure (c, some (ofRes ofDict r))
+  | "find_namespaces" => do
+      need 3
+      let r := findNamespaces c (← parseNs a[1]!) (← a[2]!.getBool?)
+      pure (c, some (ofRes (fun l => Json.arr (l.toArray.map ofNs)) r))
+  | "namespaces_decls" => do
+      need 5
+      let r := getNamespacesDecls c (← parseNs a[1]!) (← a[2]!.getStr?) (← parseKind (← a[3]!.getStr?))
+        (← a[4]!.getBool?)
+      pure (c, some (ofRes (fun l => sortJson (l.map fun e => Json.arr #[ofNs e.1, ofVal e.2])) r))
+  | "get_decl" => do
+      need 3
+      pure (c, some (ofVal (getDeclM c (← parseNs a[1]!) (← a[2]!.getStr?))))
+  | "get_lambda" => do
+      need 3
+      pure (c, some (ofVal (getLambda c (← parseNs a[1]!) (← a[2]!.getStr?))))
+  | "get_decl_type" => do
+      need 3
+      pure (c, some (ofTag (getDeclType c (← parseNs a[1]!) (← a[2]!.getStr?))))
+  | "declarations_in" => do
+      need 2
+      let r := getDeclarationsIn c (← parseNs a[1]!)
+      pure (c, some (Json.arr (r.toArray.map fun e => Json.arr #[ofNs e.1, ofDict e.2])))
+  | "get_namespace" => do
+      need 2
+      pure (c, some (match getNamespace c (← parseVal a[1]!) with
+        | some ns => ofNs ns
+        | none => Json.null))
+  | "get_parent" => do
+      need 2
+      pure (c, some (ofVal (getParent c (← parseNs a[1]!))))
+  | "get_parent_class" => do
+      need 2
+      pure (c, some (ofVal (getParentClass c (← parseNs a[1]!))))
+  | "lookup" => do
+      need 4
+      let limit ← match a[3]! with
+        | .null => pure none
+        | l => do pure (some (← parseNs l))
+      pure (c, some (match getDecl c (← parseNs a[1]!) (← a[2]!.getStr?) limit with
+        | some (ns, v) => Json.arr #[ofNs ns, ofVal v]
+        | none => Json.null))
+  | "dump" => pure (c, some (dump c))
+  | _ => throw s!"unknown item {tag}"
+
+def runItems (items : List Json) : Except String (List Json) := do
+  let mut c := Ctx.empty
+  let mut out : Array Json := #[]
+  for j in items do
+    let (c', r) ← item c j
+    c := c'
+    match r with
+    | some x => out := out.push x
+    | none => pure ()
+  pure out.toList
+
+def handle : Handler := fun op j =>
+  match op with
+  | "ctx.run" => some (do
+      let items ← getArr j "ops"
+      let out ← runItems items.toList
+      pure (res (Json.arr out.toArray)))
+  | _ => none
 
 end Driver.Ctx
